@@ -705,7 +705,7 @@ def shared(ctx):
     or by a member of the same batch (C13.R3: both tests are by the creating transaction's hash)"""
     from rules.engine import core
     from rules.props import c13
-    core.import_rules(ctx, [c13.r3_lock_gate, c13.r3_new_stakes_flow], "X13")
+    core.import_rules(ctx, [c13.r3_lock_gate, c13.r3_new_stakes_flow, c13.r2_registration], "X13")      # R2: every batch member is scanned for stakes, whatever the order
     # 'does not depend on ... how validation is scheduled across threads': whether a coin spent twice inside one batch is noticed must not depend on where
     # the two spenders sit in the batch (C02.R3: one set, every input of every transaction, a repeated insert is an error)
     from rules.props import c02
